@@ -11,6 +11,7 @@ Proved: `compaction_invisible_partial` (the statement outside the named classes 
 findings) and, without any exclusion, `no_resurrection`.
 -/
 import SwV.Lemmas.C04
+import SwV.Gen.C04
 namespace SwV.Props.C04
 open SwV.Model.C01 SwV.Model.C04 SwV.Spec.C04 SwV.Lemmas.C04
 
@@ -246,10 +247,6 @@ theorem core (s0 : CVol) (hw : WF s0) (alg nowSec : Nat) (ops : List (Nat × Op)
 
 /-! ## volumes reachable from a fresh one are well-formed -/
 
-theorem wf_init (kind : Kind) (ttl : Nat × Nat) : WF (CVol.init kind ttl) :=
-  ⟨fun k e h => by simp [CVol.init, Vol.init] at h, fun k e r h => by simp [CVol.init, Vol.init] at h,
-   fun k => by simp [CVol.init, Vol.init, loadFromIdx, mget], rfl⟩
-
 theorem wf_reachable (kind : Kind) (ttl : Nat × Nat) (pre : List (Nat × Op)) : WF (runOps (CVol.init kind ttl) pre) := by
   obtain ⟨ext, exta, suf, hs⟩ := suf_run (suf_refl (wf_init kind ttl)) pre
   refine ⟨hs.bound, hs.own, ?_, ?_⟩
@@ -278,16 +275,6 @@ theorem wf_reachable (kind : Kind) (ttl : Nat × Nat) (pre : List (Nat × Op)) :
   · rw [hs.hats, hs.hlog]; simp [CVol.init, Vol.init, hs.hlen]
 
 /-! ## the theorems -/
-
-theorem view_reload_nocut (s : CVol) (h : cutAt s.ilog s.v.log = none) (t k : Nat) :
-    view (reload s) t k = view { s with v := { s.v with idx := reloadIdx s.kind s.ilog } } t k := by
-  apply view_congr <;> simp [reload, h]
-
-theorem view_reload_cut (s : CVol) (t k : Nat) :
-    view (reload s) t k = view { s with v := { s.v with idx := reloadIdx s.kind s.ilog } } t k ∨ view (reload s) t k = none := by
-  cases h : cutAt s.ilog s.v.log with
-  | none => left; exact view_reload_nocut s h t k
-  | some n => exact view_cut _ _ n (by simp [reload, h]) (by simp [reload, h]) (by simp [reload, h]) t k
 
 /-- **Compaction is invisible to readers** — partial: for EVERY well-formed volume `s0` (in particular
     every volume reached from a fresh one, `wf_reachable`), both copy algorithms, every list of
@@ -398,5 +385,35 @@ example :
         = some ⟨2, 6⟩ := by decide
     rw [h2] at h
     simp at h
+
+
+/-! ## T1: regenerated predicates and the sources the model mirrors -/
+
+/-- makeupDiff's `!offset.IsZero() && size != 0 && size.IsValid()` with the regenerated `Size.IsValid` -/
+theorem bridge_validEnt (e : IEnt) :
+    validEnt e = (e.off != 0 && (e.size != 0 && SwV.Gen.C04.Size_IsValid e.size)) := by
+  simp only [validEnt, SwV.Gen.C04.Size_IsValid]
+  by_cases h0 : e.off = 0 <;> by_cases h1 : 0 < e.size <;> simp [h0, h1] <;> omega
+
+/-- MemDb.LoadFromIdx / SaveToIdx: `offset.IsZero() || size.IsDeleted()` with the regenerated `Size.IsDeleted` -/
+theorem bridge_isDeleted (e : IEnt) :
+    (e.off = 0 ∨ e.size < 0) ↔ (e.off = 0 ∨ SwV.Gen.C04.Size_IsDeleted e.size = true) := by
+  simp only [SwV.Gen.C04.Size_IsDeleted, Bool.or_eq_true, decide_eq_true_eq]
+  constructor
+  · rintro (h | h)
+    · exact Or.inl h
+    · exact Or.inr (Or.inl h)
+  · rintro (h | h | h)
+    · exact Or.inl h
+    · exact Or.inr h
+    · exact Or.inr (by omega)
+
+theorem bridge_sources :
+    SwV.Gen.C04.src_Compact = "90495a2118886275" ∧ SwV.Gen.C04.src_Compact2 = "e70b46c9bcaa8dc1" ∧
+    SwV.Gen.C04.src_CommitCompact = "7f99dd45edb5a3be" ∧ SwV.Gen.C04.src_makeupDiff = "a55a493df66118bc" ∧
+    SwV.Gen.C04.src_Vacuum_VisitNeedle = "93d511a40ba8dc87" ∧ SwV.Gen.C04.src_copyDataBasedOnIndexFile = "fb8c6ae27b972798" ∧
+    SwV.Gen.C04.src_copyDataAndGenerateIndexFile = "4929fef742c2c200" ∧ SwV.Gen.C04.src_LoadFromReaderAt = "26c7678c20a773f8" ∧
+    SwV.Gen.C04.src_SaveToIdx = "4c8eb9f62c2ea7b0" ∧ SwV.Gen.C04.src_CheckAndFixVolumeDataIntegrity = "87c670d5bb65451b" ∧
+    SwV.Gen.C04.src_verifyNeedleIntegrity = "1d2593cc976353eb" ∧ SwV.Gen.C04.src_doLoading = "005ccece1c6fa4f7" := by decide
 
 end SwV.Props.C04
